@@ -8,7 +8,7 @@ import vlib
 META = {
     "category": "model_checking",
     "text": "Wire.tla is the referee: its CodecView reads a name, a question and a record at every offset of an enumerated message and the whole message in the new API's flattened view; TLC checks that the new codec's stricter pointer rule only ever rejects more and that the flattened view is consistent with the sectioned one. Every enumerated message (~50k quick) is read by base::Message/ParsedName/Question/ParsedRecord+AllRecordData and by new::base NameBuf/RevNameBuf/Question/Record<RecordData>/MessageParser and compared three-way (old vs spec, new vs spec, old vs new). Random build scripts run on both builders (old: TreeCompressor, new: NameCompressor through both the reversed-name and the forward-name path), every fourth crossing the 16384-octet pointer limit with filler records; each output is read by both codecs and, up to 220 octets, re-parsed by TLC against the pushed items.",
-    "note": "Trusted: TLC, the transcription in Wire.tla, the harness. RDATA types beyond NS/CNAME/PTR/MX/SOA/OPT/A/AAAA/private-use are 'undecided' for the referee and not compared item by item; UnparsedName, CharStr and the derive macros of other record types are not exercised. Names are compared case-insensitively after building (a compressor may point to an equal name in another case). Outputs beyond 220 octets are judged by the two readers only. The established builder is not driven across 16384 (its compressors' limit is C02's finding D_ptr_limit_c000). Three open known findings: the new codec's stricter pointer rule (D_new_ptr_rule), the new compressor's duplicated labels (D_new_compressor_revname_rest) and its pointer overflow beyond 16383-12 (D_new_compressor_ptr_overflow).",
+    "note": "Trusted: TLC, the transcription in Wire.tla, the harness. RDATA types beyond NS/CNAME/PTR/MX/SOA/OPT/A/AAAA/private-use are 'undecided' for the referee and not compared item by item; UnparsedName, CharStr and the derive macros of other record types are not exercised. Names are compared case-insensitively after building (a compressor may point to an equal name in another case). Outputs beyond 220 octets are judged by the two readers only. The established builder is not driven across 16384 (its compressors' limit is C02's finding D_ptr_limit_c000). Build scripts also fill small buffers until pushes fail and truncate()/rewind in the middle, comparing counts after every call. For RDATA the referee does not know but both codecs do, accept/reject is compared between the codecs. Open known findings: D_new_ptr_rule, D_new_builder_truncate_counts, and four accept/reject disagreements on RDATA (empty TXT, compressed names in SRV/DNAME/RRSIG/NSEC, non-canonical type bitmaps, short ZONEMD digest).",
     "technique": "TLA+ spec (Wire.tla) + TLC exhaustive over enumerated messages; spec->impl differential case replay on two codecs; impl->spec trace validation of build scripts",
     "design_ref": "DESIGN.md §4 C19",
 }
@@ -77,6 +77,17 @@ def run(ctx):
         rc, out, err, _ = ctx.run_bin("record_codec", [tr, str(ctx.seed * 100 + i), str(n_scripts)])
         if rc != 0:
             raise vlib.ToolError("record_codec failed: " + (out + err)[-500:])
+        kinds = {}
+        for l in open(tr):
+            o = json.loads(l)
+            kinds[(o["ev"], o.get("side"))] = kinds.get((o["ev"], o.get("side")), 0) + 1
+        for need in (("built", "old"), ("built", "new"), ("bigbuilt", "old"), ("bigbuilt", "new"),
+                     ("fill", "old"), ("trunc", "old")):
+            if not kinds.get(need):
+                raise vlib.ToolError("vacuity: build trace has no %s/%s event" % need)
+        if not (kinds.get(("fill", "new")) or kinds.get(("fillpanic", "new"))) or \
+           not (kinds.get(("trunc", "new")) or kinds.get(("truncpanic", "new"))):
+            raise vlib.ToolError("vacuity: build trace lacks fill/trunc scripts on the new builder")
         ok, res, rej = ctx.validate_trace("Trace_Codec", "Trace_Codec", tr, label="build-%d" % i, env=env)
         ctx.traces += 1
         if not ok:
